@@ -76,7 +76,10 @@ class _Ctx:
 
 
 class CFG:
-    def __init__(self, scope: Scope, program: Program, raise_model: 'RaiseModel'):
+    def __init__(self, scope: Scope, program: Program, raise_model: 'RaiseModel', inline_methods: bool = False,
+                 inline_nested: bool = True):
+        self.inline_methods = inline_methods
+        self.inline_nested = inline_nested
         self.scope = scope
         self.program = program
         self.unit = scope.unit
@@ -91,6 +94,8 @@ class CFG:
         self._trys: Tuple[Tuple[ast.Try, str], ...] = ()
         self._loops: Tuple[ast.AST, ...] = ()
         self._inlining: List[str] = []
+        self.cur_scope: Scope = scope          # scope whose body is currently being built (changes while inlining)
+        self.callee_cache: Dict[int, dict] = {}
         self.inline_values: Dict[int, Tuple[ast.expr, Dict[str, ast.expr]]] = {}
         fn = scope.node
         self.entry = self._raw_node('entry', fn, getattr(fn, 'lineno', 0))
@@ -139,6 +144,9 @@ class CFG:
         n.withs = self._withs
         n.trys = self._trys
         n.loops = self._loops
+        if self._inlining:
+            n.meta['inlined'] = len(self._inlining)
+            n.meta['inlined_from'] = self._inlining[-1]
         for src, label in self.cur:
             self._edge(src, n, label)
         self.cur = [(n, 'seq')]
@@ -260,6 +268,18 @@ class CFG:
         self._node('def', s, name=s.name)
 
     def _s_Assign(self, s: ast.Assign) -> None:
+        v = s.value
+        call = v.value if isinstance(v, ast.Await) and isinstance(v.value, ast.Call) else v
+        if isinstance(call, ast.Call):
+            target = self._inline_target(call, awaited=isinstance(v, ast.Await))
+            if target is not None:
+                self._expr(call.func)
+                for a in call.args:
+                    self._expr(a)
+                for k in call.keywords:
+                    self._expr(k.value)
+                self._inline(call, *target, assign_targets=list(s.targets), assign_stmt=s)
+                return
         self._expr(s.value)
         for t in s.targets:
             self._store(t, s.value, s)
@@ -324,6 +344,14 @@ class CFG:
     def _s_Return(self, s: ast.Return) -> None:
         if s.value is not None:
             self._expr(s.value)
+        if self._inlining:
+            # an inlined helper on the right-hand side of an assignment: the
+            # returned value(s) are stored into the assignment's targets here
+            ic = next((c for c in reversed(self.ctx) if c.kind == 'inline'), None)
+            if ic is not None and getattr(ic, 'assign_targets', None):
+                val = s.value if s.value is not None else ast.Constant(value=None)
+                for tg in ic.assign_targets:
+                    self._store(tg, val, ic.assign_stmt)
         n = self._node('inline_return' if self._inlining else 'return', s)
         self._dispatch_jump('return', n)
         self.cur = []
@@ -586,51 +614,108 @@ class CFG:
             self._expr(a)
         for k in e.keywords:
             self._expr(k.value)
-        target = self._inline_target(e)
+        target = self._inline_target(e, awaited=False)
         if target is not None:
-            self._inline(e, target)
+            self._inline(e, *target)
             return
         self._node('call', e)
 
-    # -- inlining of nested synchronous helpers (DESIGN 3.1: extracting a block
-    #    into a helper that is called inline must not change any verdict) ------
-    def _inline_target(self, e: ast.Call) -> Optional[Scope]:
-        if not isinstance(e.func, ast.Name) or e.keywords or any(isinstance(a, ast.Starred) for a in e.args):
+    # -- inlining (DESIGN 3.1: extracting a block into a helper that is called
+    #    inline - or inlining a helper - must not change any verdict) ----------
+    #  * nested helpers (closures): sync when called, async when awaited directly
+    #  * with inline_methods: private, non-overridden methods of the same class
+    def _inline_target(self, e: ast.Call, awaited: bool):
+        f = e.func
+        if any(isinstance(a, ast.Starred) for a in e.args) or any(k.arg is None for k in e.keywords):
             return None
-        bs = self.scope.binding_scope(e.func.id)
-        if bs is None or bs.kind != 'function':
+        t: Optional[Scope] = None
+        skip_self = False
+        if isinstance(f, ast.Name):
+            if not self.inline_nested:
+                return None
+            bs = self.cur_scope.binding_scope(f.id)
+            if bs is None or bs.kind != 'function':
+                return None
+            # the helper must be a plain def (bound once, by its def) in this
+            # function or an enclosing one
+            cands = [c for c in bs.children if c.kind == 'function' and c.name == f.id]
+            if len(cands) != 1 or _has_nondef_binding(bs, f.id):
+                return None
+            t = cands[0]
+        elif self.inline_methods and isinstance(f, ast.Attribute) and isinstance(f.value, ast.Name) \
+                and f.value.id == 'self' and f.attr.startswith('_') and not f.attr.startswith('__'):
+            sc: Optional[Scope] = self.cur_scope
+            cls = None
+            while sc is not None:
+                if sc.kind == 'class':
+                    cls = sc
+                    break
+                sc = sc.parent
+            if cls is None:
+                return None
+            m = find_method(self.program, cls, f.attr)
+            if m is None or _is_abstract(m):
+                return None
+            for sub in subclasses(self.program, cls):
+                if sub.unit.scopes.get(f'{sub.qualname}.{f.attr}') is not None:
+                    return None
+            t = m
+            skip_self = True
+        if t is None or t.is_generator or t.decorators or t.is_async != awaited:
             return None
-        # the helper must be a plain def (bound once, by its def) in this
-        # function or an enclosing one
-        cands = [c for c in bs.children if c.kind == 'function' and c.name == e.func.id]
-        if len(cands) != 1 or _has_nondef_binding(bs, e.func.id):
-            return None
-        t = cands[0]
-        if t.is_async or t.is_generator or t.decorators:
+        if t.qualname in self._inlining or len(self._inlining) >= 4 or t is self.scope:
             return None
         a = t.node.args
-        if a.vararg or a.kwarg or a.kwonlyargs or a.posonlyargs or a.defaults or len(a.args) != len(e.args):
+        if a.vararg or a.kwarg or a.posonlyargs:
             return None
-        if t.qualname in self._inlining or len(self._inlining) >= 3:
+        params = [x.arg for x in a.args][1 if skip_self else 0:]
+        defaults: Dict[str, ast.expr] = {}
+        for prm, d in zip(reversed([x.arg for x in a.args]), reversed(a.defaults)):
+            defaults[prm] = d
+        for prm, d in zip(a.kwonlyargs, a.kw_defaults):
+            if d is not None:
+                defaults[prm.arg] = d
+        allp = params + [x.arg for x in a.kwonlyargs]
+        if len(e.args) > len(params):
             return None
-        # only helpers that share state with us through closures are worth
-        # (and safe) to expand: same outermost function
-        return t
+        binding: Dict[str, ast.expr] = {}
+        for prm, arg in zip(params, e.args):
+            binding[prm] = arg
+        for k in e.keywords:
+            if k.arg not in allp or k.arg in binding:
+                return None
+            binding[k.arg] = k.value
+        for prm in allp:
+            if prm not in binding:
+                if prm not in defaults:
+                    return None
+                binding[prm] = defaults[prm]
+        return t, [(prm, binding[prm]) for prm in allp]
 
-    def _inline(self, e: ast.Call, t: Scope) -> None:
-        self._node('inline_enter', e, name=t.qualname)
-        for prm, arg in zip(t.node.args.args, e.args):
-            self._node('store_name', arg, e.lineno, name=prm.arg, value=arg, stmt=e, inlined_param=True)
+    def _inline(self, e: ast.Call, t: Scope, binding, assign_targets=None, assign_stmt=None) -> None:
+        self._node('inline_enter', e, name=t.qualname, awaited=t.is_async, await_ast=parent(e) if t.is_async else None)
+        for prm, arg in binding:
+            self._node('store_name', arg, e.lineno, name=prm, value=arg, stmt=e, inlined_param=True)
         c = _Ctx('inline', node=e)
         c.returns = []
+        c.assign_targets = assign_targets
+        c.assign_stmt = assign_stmt
         self.ctx.append(c)
         self._inlining.append(t.qualname)
         saved_res = self.res
+        saved_scope = self.cur_scope
         self.res = Resolver(t)
+        self.cur_scope = t
         try:
             self._build_body(t.node.body)
+            if self.cur and assign_targets:
+                # falling off the end returns None
+                none = ast.Constant(value=None)
+                for tg in assign_targets:
+                    self._store(tg, none, assign_stmt)
         finally:
             self.res = saved_res
+            self.cur_scope = saved_scope
             self._inlining.pop()
             self.ctx.pop()
         self.cur = self.cur + c.returns
@@ -639,9 +724,21 @@ class CFG:
         # value of the call expression, when the helper is a single-return function
         rets = [x for x in own_nodes(t.node) if isinstance(x, ast.Return)]
         if len(rets) == 1 and rets[0].value is not None and t.node.body and t.node.body[-1] is rets[0]:
-            self.inline_values[id(e)] = (rets[0].value, {prm.arg: arg for prm, arg in zip(t.node.args.args, e.args)})
+            self.inline_values[id(e)] = (rets[0].value, dict(binding))
 
     def _e_Await(self, e: ast.Await) -> None:
+        if isinstance(e.value, ast.Call):
+            target = self._inline_target(e.value, awaited=True)
+            if target is not None:
+                c = e.value
+                self._expr(c.func)
+                for a in c.args:
+                    self._expr(a)
+                for k in c.keywords:
+                    self._expr(k.value)
+                self._inline(c, *target)
+                self.inline_values.setdefault(id(e), self.inline_values.get(id(c))) if id(c) in self.inline_values else None
+                return
         self._expr(e.value)
         self._node('await', e)
 
@@ -892,12 +989,17 @@ class RaiseModel:
             return set(model.CALL_RAISES[name])
         meth = info.get('method')
         if meth == 'items' and isinstance(call.func, ast.Attribute) and isinstance(call.func.value, ast.Name):
-            fnode = cfg.scope.node
+            fnode = cfg.cur_scope.node
             kw = getattr(getattr(fnode, 'args', None), 'kwarg', None)
             if kw is not None and kw.arg == call.func.value.id:
                 return set()  # **kwargs is always a dict
             if not is_user_value(cfg, call.func.value):
                 return set()
+        if meth == 'release' and isinstance(call.func, ast.Attribute) and not (cfg.res.path(call.func.value) or '').startswith('self.'):
+            # Lock.release() raises only when the lock is not held; for a lock
+            # that lives in a closure / local / global the pairing is visible
+            # in this very function (held-lock analysis), so it is total here.
+            return set()
         if meth and meth in model.METHOD_RAISES and kind != 'lib-func':
             self.table_hits['.' + meth] = self.table_hits.get('.' + meth, 0) + 1
             return set(model.METHOD_RAISES[meth])
@@ -1004,7 +1106,7 @@ def subclasses(program: Program, cls: Scope) -> List[Scope]:
 def is_user_value(cfg: CFG, name: ast.Name, _depth: int = 0) -> bool:
     """Is the variable a caller-supplied value (a parameter of this or an
     enclosing function, or a single-assignment copy of one)?"""
-    scope = cfg.scope
+    scope = cfg.cur_scope
     bs = scope.binding_scope(name.id)
     if bs is None or bs.kind != 'function':
         return False
@@ -1024,8 +1126,17 @@ def is_user_value(cfg: CFG, name: ast.Name, _depth: int = 0) -> bool:
 def callee_info(cfg: CFG, call: ast.Call) -> dict:
     """Classify the callee of *call*:
     kind in {'package','user','lib','lib-func','unknown'}."""
+    cached = cfg.callee_cache.get(id(call))
+    if cached is not None:
+        return cached
+    info = _callee_info(cfg, call)
+    cfg.callee_cache[id(call)] = info
+    return info
+
+
+def _callee_info(cfg: CFG, call: ast.Call) -> dict:
     f = call.func
-    scope = cfg.scope
+    scope = cfg.cur_scope
     unit = scope.unit
     program = cfg.program
     res = cfg.res
@@ -1151,15 +1262,16 @@ def _attr_from_param(program: Program, cls: Scope, attr: str) -> bool:
     return False
 
 
-_cfg_cache: Dict[Tuple[int, str, str], CFG] = {}
+_cfg_cache: Dict[tuple, CFG] = {}
 
 
-def build(scope: Scope, program: Program, raise_model: Optional[RaiseModel] = None) -> CFG:
+def build(scope: Scope, program: Program, raise_model: Optional[RaiseModel] = None,
+          inline_methods: bool = False, inline_nested: bool = True) -> CFG:
     if raise_model is None:
         raise_model = default_model(program)
-    key = (id(raise_model), scope.unit.rel, scope.qualname)
+    key = (id(raise_model), scope.unit.rel, scope.qualname, inline_methods, inline_nested)
     if key not in _cfg_cache:
-        _cfg_cache[key] = CFG(scope, program, raise_model)
+        _cfg_cache[key] = CFG(scope, program, raise_model, inline_methods, inline_nested)
     return _cfg_cache[key]
 
 
